@@ -563,101 +563,39 @@ class Chain:
         ok2 = s.lemma(label + '.root', var == want, s.pre + list(extra) + [var >= 0, var * var == want_sq])
         if ok1 and ok2: s.apply([(var, want)])
         return ok1 and ok2
-    # -- rational normal form  P / (product of non-zero variables)
-    def _rat(s, t, memo):
-        """(numerator _Poly, {variable key: exponent}) for a term built from + - * / whose divisors are (fractions of) monomials over the variables declared non-zero;
-        anything else (If-terms, other divisions) is an opaque atom"""
-        k = t.get_id()
-        if k in memo: return memo[k]
-        P = realtrig._Poly; r = None
-        num = realtrig._num(t)
-        if num is not None: r = (P.const(num), {})
-        elif z3.is_app(t) and z3.is_real(t):
-            kd = t.decl().kind(); ch = t.children()
-            def add(a, b, sign=1):
-                D = dict(a[1])
-                for v, e in b[1].items(): D[v] = max(D.get(v, 0), e)
-                def lift(x):
-                    p_ = x[0]
-                    for v, e in D.items():
-                        for _ in range(e - x[1].get(v, 0)): p_ = p_.mul(P.atom(s.nz[v]))
-                    return p_
-                return (lift(a).add(lift(b), sign), D)
-            def mul(a, b):
-                D = dict(a[1])
-                for v, e in b[1].items(): D[v] = D.get(v, 0) + e
-                return (a[0].mul(b[0]), D)
-            if kd == z3.Z3_OP_ADD:
-                r = s._rat(ch[0], memo)
-                for c in ch[1:]: r = add(r, s._rat(c, memo))
-            elif kd == z3.Z3_OP_SUB:
-                r = s._rat(ch[0], memo)
-                for c in ch[1:]: r = add(r, s._rat(c, memo), -1)
-            elif kd == z3.Z3_OP_UMINUS:
-                a = s._rat(ch[0], memo); r = (a[0].scale(-1), a[1])
-            elif kd == z3.Z3_OP_MUL:
-                r = s._rat(ch[0], memo)
-                for c in ch[1:]: r = mul(r, s._rat(c, memo))
-            elif kd == z3.Z3_OP_DIV:
-                a = s._rat(ch[0], memo); b = s._rat(ch[1], memo)
-                if len(b[0].t) == 1:
-                    (m, cf), = b[0].t.items()
-                    if all(x in s.nz for x in m):
-                        D = dict(b[1]); inv = (P.const(1 / cf), {})          # 1/b = (prod D_b) / (cf * m)
-                        for v in m: inv[1][v] = inv[1].get(v, 0) + 1
-                        pn = P.const(1 / cf)
-                        for v, e in D.items():
-                            for _ in range(e): pn = pn.mul(P.atom(s.nz[v]))
-                        r = mul(a, (pn, {v: m.count(v) for v in set(m)}))
-        if r is None: r = (realtrig._Poly.atom(t), {})
-        # cancel variable powers common to the denominator and every numerator monomial
-        Pn, D = r; D = {v: e for v, e in D.items() if e > 0}
-        for v in list(D):
-            while D.get(v, 0) > 0 and Pn.t and all(v in m for m in Pn.t):
-                nt = {}
-                for m, cf in Pn.t.items():
-                    l = list(m); l.remove(v); nt[tuple(l)] = cf
-                Pn = realtrig._Poly(nt, Pn.atoms); D[v] -= 1
-            if D.get(v, 0) == 0: D.pop(v, None)
-        if not Pn.t: D = {}
-        memo[k] = (Pn, D); return memo[k]
-    def _rat_term(s, r):
-        Pn, D = r; t = Pn.term() if Pn.t else ZERO
-        if D:
-            d = None
-            for v in sorted(D):
-                for _ in range(D[v]): d = s.nz[v] if d is None else d * s.nz[v]
-            t = t / d
-        return t
-    def cancel(s, rounds=4):
-        """every maximal arithmetic subterm containing a division is replaced by its rational normal form (divisors: monomials over the variables declared non-zero); each replacement is a
-        lemma proved with the opaque atoms (If-terms ..) generalised to fresh variables"""
-        AR = (z3.Z3_OP_ADD, z3.Z3_OP_MUL, z3.Z3_OP_SUB, z3.Z3_OP_UMINUS, z3.Z3_OP_DIV)
-        isar = lambda t: z3.is_app(t) and z3.is_real(t) and t.decl().kind() in AR
+    def _den(s, d):
+        """(monomial, coefficient) when the divisor is coefficient * product of variables known to be non-zero"""
+        pd = realtrig.poly_of(z3.simplify(d))
+        if len(pd.t) != 1: return None
+        (m, cf), = pd.t.items()
+        if not m or any(a not in s.nz for a in m): return None
+        return m, cf
+    def cancel(s, rounds=8):
+        """(p * v) / (k * v) == p / k for monomial divisors over the variables declared non-zero, innermost divisions first (each instance is a lemma)"""
         for _ in range(rounds):
-            cand = []; seen = set(); hasdiv = {}
-            def skeleton_div(t):
-                k = t.get_id()
-                if k in hasdiv: return hasdiv[k]
-                r = isar(t) and (t.decl().kind() == z3.Z3_OP_DIV and realtrig._num(z3.simplify(t.arg(1))) is None or any(skeleton_div(c) for c in t.children())); hasdiv[k] = r; return r
-            def visit(t, inar):
-                k = (t.get_id(), inar)
-                if k in seen: return
-                seen.add(k)
-                if isar(t):
-                    if not inar and skeleton_div(t): cand.append(t)
-                    for c in t.children(): visit(c, True)
-                else:
-                    for c in t.children(): visit(c, False)
-            for t in s.terms(): visit(t, False)
-            new = []; memo = {}
-            for node in cand:
-                r = s._rat(node, memo); r_ = z3.simplify(s._rat_term(r))
-                if r_.eq(z3.simplify(node)): continue
-                # generalise opaque atoms
-                ab = [(a, z3.Real('atom!%d' % j)) for j, a in enumerate(r[0].atoms.values()) if not (z3.is_const(a) and a.decl().kind() == z3.Z3_OP_UNINTERPRETED)]
-                g = (node == r_); g = z3.substitute(g, *ab) if ab else g
-                if s.lemma('cancel', g, [x for x in s.pre if not _fresh_vars(x, {})], timeout=10): new.append((node, r_))
+            acc = []; seen = set()
+            def f(t):
+                if z3.is_app(t) and t.decl().kind() == z3.Z3_OP_DIV and s._den(t.arg(1)) is not None: acc.append(t)
+            for t in s.terms(): _walk(t, f, seen)
+            new = []
+            for node in acc:
+                inner = []
+                def g(t, inner=inner):
+                    if z3.is_app(t) and t.decl().kind() == z3.Z3_OP_DIV: inner.append(t)
+                _walk(node.arg(0), g, set())
+                if inner: continue
+                m, cf = s._den(node.arg(1)); p = realtrig.poly_of(z3.simplify(node.arg(0)))
+                nt = {}; ok = True
+                for mono, c_ in p.t.items():
+                    l = list(mono)
+                    for a in m:
+                        if a in l: l.remove(a)
+                        else: ok = False; break
+                    if not ok: break
+                    nt[tuple(l)] = c_ / cf
+                if not ok: continue
+                r_ = realtrig._Poly(nt, p.atoms).term() if nt else ZERO
+                if s.lemma('cancel', node == r_, s.pre + select_axioms(s.ax, [node]), timeout=10): new.append((node, r_))
             if not new: break
             s.apply(new)
     def reduce(s, var, repl, rounds=4):
@@ -761,24 +699,61 @@ def trs_matrix(R, sc, tr, skew=None, persp=None):
 CUBE = {'I': ident(3), 'X90': [[ONE, ZERO, ZERO], [ZERO, ZERO, -ONE], [ZERO, ONE, ZERO]], 'Y90': [[ZERO, ZERO, ONE], [ZERO, ONE, ZERO], [-ONE, ZERO, ZERO]],
         'X180': [[ONE, ZERO, ZERO], [ZERO, -ONE, ZERO], [ZERO, ZERO, -ONE]], 'Y180': [[-ONE, ZERO, ZERO], [ZERO, ONE, ZERO], [ZERO, ZERO, -ONE]],
         'P': [[z3.Q(2, 3), z3.Q(-1, 3), z3.Q(2, 3)], [z3.Q(2, 3), z3.Q(2, 3), z3.Q(-1, 3)], [z3.Q(-1, 3), z3.Q(2, 3), z3.Q(2, 3)]]}     # P: a rational rotation with no zero entry
-def job_decompose(t, base, axis, signs, skew):
-    """M = T(t) * [B * R_axis(angle)] * K(skew) * diag(s): symbolic translation, angle (c, s with c^2+s^2 = 1), scale (sign pattern fixed per job), skew; B a fixed rational rotation.
-    Obligations: decompose reports success; the components compose (P * T * rotmat(q) * K * diag(scale)) to M; recompose(decompose(M)) == M (float instantiation)."""
+_RD = {}
+def recompose_double_available(S):
+    """recompose<double> hard-codes glm::mat4 (float) and does not compile in the unchanged tree: reported as a known finding while that is so; once it compiles the double obligations run"""
+    if 'ok' not in _RD:
+        try: URD.compile_ll(); URD.module(); _RD['ok'] = True
+        except RuntimeError as e: _RD['ok'] = False; _RD['err'] = str(e)[-600:]
+    if not _RD['ok']:
+        kf = S.known.get('KF-C09-recompose-double-not-instantiable')
+        if kf is not None and kf.get('status', 'open') == 'open':
+            if not any(k == kf['id'] for k, _ in S.known_hits):
+                S.known_hits.append((kf['id'], kf['what']))
+                S.rec(name='c09.recompose_f64.instantiable.known[%s]' % kf['id'], kind='known-finding-probe', functions=['glm::recompose<double>'], solver='clang++-14', result='compile-error', time_s=0.0, mandatory=False,
+                      status='known-finding', note=_RD.get('err', '')[-300:])
+        else:
+            S.rec(name='c09.recompose_f64.instantiable', kind='encode', result='compile-error', status='not-encoded', mandatory=True, functions=['glm::recompose<double>'], note=_RD.get('err', '')[-300:])
+            S.inconclusive.append('c09.recompose_f64 [glm::recompose<double> does not compile]')
+    return _RD['ok']
+def pnorm(x):
+    """expanded polynomial form (so that cancellations such as p.t m - m p.t are syntactic)"""
+    p_ = realtrig.poly_of(z3.simplify(rv(x))); return p_.term() if p_.t else ZERO
+def job_decompose(t, base, axis, signs, skew, persp=0):
+    """M = P(p) * T(t) * [B * R_axis(angle)] * K(skew) * diag(s): symbolic translation, angle (c, s with c^2+s^2 = 1), scale (sign pattern fixed per job), skew, perspective row; B a fixed
+    rational rotation.  persp = +-1: M[3][3] = m with that sign and the parameters are written t = tau*m, s = sigma*m, p.w = m (1 - p.tau) (a bijection for m != 0) so that the code's
+    normalisation by M[3][3] cancels against a variable.  Obligations: decompose reports success; the components compose (P * T * rotmat(q) * K * diag(scale)) to M / M[3][3];
+    recompose(decompose(M)) == M / M[3][3] (float instantiation; identical to M when M[3][3] == 1, in particular without perspective)."""
     def run(S):
-        eps = eps_of(t); fn = 'decrec_' + t if t == 'f32' else 'decompose_' + t
+        eps = eps_of(t); Un = U; fn = 'decrec_' + t
+        if t == 'f64' and not recompose_double_available(S): fn = 'decompose_' + t
+        elif t == 'f64': Un = URD
         sc = list(z3.Reals('sx sy sz')); tr = list(z3.Reals('tx ty tz')); kk = list(z3.Reals('kx ky kz')) if skew else None
         c, s_ = z3.Reals('rc rs'); R = mmul(CUBE[base], {'x': Rx, 'y': Ry, 'z': Rz}[axis](c, s_)); pre = [c * c + s_ * s_ == 1]
         R = [[z3.simplify(x) for x in row] for row in R]
-        M = trs_matrix(R, sc, tr, kk); Mf = [z3.simplify(x) for x in flat(M)]
         pre += [sg * x > 0 for sg, x in zip(signs, sc)] + [signs[0] * signs[1] * signs[2] * sc[0] * sc[1] * sc[2] >= eps]
-        ex = mkex(U, 'real', 16)
-        res = sym_call(U, fn, ins=[Mf], mode='real', ex=ex)
-        tag = '%s%s.%s%s' % (base, axis, ''.join('+' if x > 0 else '-' for x in signs), '.skew' if skew else '')
-        name = 'c09.%s.%s' % (fn, tag); bounds = 'M = T*(%s*R%s(angle))*%sdiag(s); signs of s: %s; |det| >= epsilon' % (base, axis, 'K(skew)*' if skew else '', signs)
-        C = Chain(S, name, pre, ex.axioms, nonzero=sc, functions=['w_' + fn])
+        nz = list(sc); m = ONE
+        if persp:
+            m = z3.Real('m'); pp = list(z3.Reals('px py pz')); nz.append(m)
+            M = trs_matrix(R, [x * m for x in sc], [x * m for x in tr], kk, pp + [m * (1 - dot(pp, tr))])
+            Kk = [[ONE, kk[2], kk[1]], [ZERO, ONE, kk[0]], [ZERO, ZERO, ONE]] if skew else ident(3)
+            Bn = mmul(mmul(R, Kk), diag(sc))                                      # upper-left block of M / m
+            l3 = [sum_(pp[r] * Bn[r][k] for r in range(3)) for k in range(3)]      # last row of M / m
+            pre += [persp * m >= eps, z3.Or(*[absr(x) >= eps for x in l3])]
+        else:
+            M = trs_matrix(R, sc, tr, kk)
+        M = [[pnorm(x) for x in row] for row in M]; Mf = flat(M)
+        ex = mkex(Un, 'real', 16)
+        res = sym_call(Un, fn, ins=[Mf], mode='real', ex=ex)
+        tag = '%s%s.%s%s%s' % (base, axis, ''.join('+' if x > 0 else '-' for x in signs), '.skew' if skew else '', '' if not persp else ('.persp+' if persp > 0 else '.persp-'))
+        name = 'c09.%s.%s' % (fn, tag)
+        bounds = 'M = %sT*(%s*R%s(angle))*%sdiag(s); signs of s: %s; |det| >= epsilon%s' % ('P*' if persp else '', base, axis, 'K(skew)*' if skew else '', signs,
+                                                                                            '; sign of M[3][3]: %d, |M[3][3]| >= epsilon, some |M[k][3]/M[3][3]| >= epsilon' % persp if persp else '')
+        C = Chain(S, name, pre, ex.axioms, nonzero=nz, functions=['w_' + fn])
         C.track('ok', [z3.If(res.outs[0][0] == 1, ONE, ZERO)]); C.track('comp', [rv(x) for x in res.outs[1]])
         if len(res.outs) > 2: C.track('rec', [rv(x) for x in res.outs[2]])
         C.track('sqrt-args', [a for a, y in ex.sqrt_log])
+        C.cancel(); C.reduce(s_, 1 - c * c)
         for k in range(3):
             C.equate('scale%d' % k, ex.sqrt_log[k][1], C.g['sqrt-args'][k], sc[k] * sc[k], signs[k] * sc[k])
             C.cancel(); C.reduce(s_, 1 - c * c)
@@ -789,15 +764,16 @@ def job_decompose(t, base, axis, signs, skew):
         Rp = [[signs[k] * flip * R[r][k] for k in range(3)] for r in range(3)]; d = [Rp[k][k] for k in range(3)]; trc = d[0] + d[1] + d[2]
         cases = [('trace>0', [trc > 0]), ('i=0', [trc <= 0, z3.Not(d[1] > d[0]), z3.Not(d[2] > d[0])]), ('i=1', [trc <= 0, d[1] > d[0], z3.Not(d[2] > d[1])]),
                  ('i=2', [trc <= 0, z3.Or(z3.And(d[1] > d[0], d[2] > d[1]), z3.And(z3.Not(d[1] > d[0]), d[2] > d[0]))])]
+        S.prove(name + '.cases-exhaustive', z3.Or(*[z3.And(*cd) for _, cd in cases]), [], timeout=20, solver='z3', kind='lemma', functions=['(case split)'])
         for cn, cond in cases:
             r0, _, _, _ = S.query(pre + cond, 5, 'nra')
             if r0 == 'unsat':
-                S.rec(name='%s.%s.unreachable' % (name, cn), kind='lemma', result='unsat', status='discharged', solver='z3 qfnra-nlsat', time_s=0.0, mandatory=True, functions=['w_' + fn], bounds=bounds + '; branch not reachable in this family'); continue
+                S.prove('%s.%s.unreachable' % (name, cn), z3.BoolVal(False), pre + cond, timeout=20, solver='nra', kind='lemma', functions=['w_' + fn], bounds=bounds + '; branch not reachable in this family'); continue
             D = C.fork(cn, cond); D.conds(); D.reduce(s_, 1 - c * c)
             comp = D.g['comp']; hy = lambda g: D.pre + select_axioms(D.ax, [g])
             W = trs_matrix(qrotmat(comp[3:7]), comp[0:3], comp[7:10], comp[10:13], comp[13:17])
-            goals = [('compose(decompose(M))[r%dc%d]' % (r, k), W[r][k] == M[r][k]) for r in range(4) for k in range(4)]
-            if 'rec' in D.g: goals += [('recompose(decompose(M))[%d]' % k, D.g['rec'][k] == Mf[k]) for k in range(16)]
+            goals = [('compose(decompose(M))[r%dc%d]' % (r, k), W[r][k] * m == M[r][k]) for r in range(4) for k in range(4)]
+            if 'rec' in D.g: goals += [('recompose(decompose(M))[%d]' % k, D.g['rec'][k] * m == Mf[k]) for k in range(16)]
             for lab, g in goals:
                 S.prove('%s.%s.%s' % (name, cn, lab), g, hy(g), timeout=S.cap(40, 120), solver='nra', kind='spec', functions=['w_' + fn], bounds=bounds + '; extraction branch ' + cn)
     return run
@@ -810,6 +786,8 @@ def jobs(tier):
         for cfg in ('RH', 'LH'):
             J += [('lookat_%s_%s' % (cfg, t), job_lookat(t, cfg)), ('lookat_dispatch_%s_%s' % (cfg, t), job_lookat_dispatch(t, cfg))]
     J.append(('lemmas', job_lemmas))
-    for nm, a in (('Iz+++', ('I', 'z', (1, 1, 1), False)), ('Iz-++k', ('I', 'z', (-1, 1, 1), True)), ('Px+-+k', ('P', 'x', (1, -1, 1), True)), ('Y90y---k', ('Y90', 'y', (-1, -1, -1), True))):
+    for nm, a in (('Iz+++', ('I', 'z', (1, 1, 1), False)), ('Iz-++k', ('I', 'z', (-1, 1, 1), True)), ('Px+-+k', ('P', 'x', (1, -1, 1), True)), ('Y90y---k', ('Y90', 'y', (-1, -1, -1), True)),
+                  ('Iz+++p', ('I', 'z', (1, 1, 1), False, 1)), ('Px+-+kp', ('P', 'x', (1, -1, 1), True, -1))):
         J.append(('decompose_f32_' + nm, job_decompose('f32', *a)))
+    J.append(('decompose_f64_Px+-+k', job_decompose('f64', 'P', 'x', (1, -1, 1), True)))
     return J
